@@ -166,6 +166,8 @@ def run_case(col, case, only_rect=None):
     style, ident, style_spec = KINDS[case["kind"]]
     text = style == "block"
     world.setup(ident, *TERM, cell=tuple(case.get("cell", CELL)))
+    if case.get("cell_ratio") is not None:
+        L.ti.set_cell_ratio(case["cell_ratio"])     # public global setting; reset_world() puts 0.5 back
     L.urwid.CanvasCache.clear()
     img = style_cls(L, style)(source_image(case["img"], style))
     spec = f"{case['h']}.{case['v']}{case['alpha']}{style_spec}"
@@ -178,6 +180,8 @@ def run_case(col, case, only_rect=None):
                     sizing="box" if len(size) == 2 else "flow")
     if case.get("rerender"):
         base_sig["history"] = "image-rendered-again-at-another-size:" + case["rerender"]["via"]
+    if case.get("cell_ratio") is not None:
+        base_sig["cell_ratio"] = "default" if case["cell_ratio"] == 0.5 else ">0.5" if case["cell_ratio"] > 0.5 else "<0.5"
 
     def bad(clause, what, rect=None, **extra):
         sig = dict(base_sig, clause=clause, **extra)
@@ -445,6 +449,28 @@ def build_cases(tier):
                     for upscale in (False, True):
                         cases.append(dict(kind=kind, img=img, size=[c], h="|", v="-", upscale=upscale, alpha="",
                                           rows_only=True, cell=list(cell)))
+        if fam == "block":
+            # tall narrow images (fewer columns than rows): a vertical cut of exactly as many image rows as the
+            # image is wide must not be confused with the horizontal geometry - every sub-rectangle
+            for img in (["2x4", "1x3"] if quick else ["2x4", "1x3", "3x5", "2x6"]):
+                for size in ([(4, 6), (2, 4), (3, 5), (5, 7), (2,), (4,)] if quick else
+                             [(4, 6), (2, 4), (3, 5), (5, 7), (6, 8), (3, 7), (2,), (4,), (5,)]):
+                    for h in H_ALIGNS:
+                        for v in V_ALIGNS:
+                            if len(size) == 1 and v != "^":
+                                continue
+                            for upscale in (False, True):
+                                cases.append(dict(kind=kind, img=img, size=list(size), h=h, v=v, upscale=upscale,
+                                                  alpha=""))
+            # the global cell ratio (term_image.set_cell_ratio): it changes the fitted size of text images (pixel
+            # ratio = 2 x cell ratio); a box canvas must still be exactly as high as the box - wide and tall sources
+            for ratio in ((1.0, 2.0, 0.25) if quick else (1.0, 2.0, 0.25, 0.75, 3.0)):
+                for img in (["8x2", "6x1", "3x2", "2x4"] if quick else ["8x2", "6x1", "5x2", "3x2", "2x4", "1x3"]):
+                    for size in [(c, r) for c in range(3, 9) for r in range(1, 5)] + [(4,), (7,)]:
+                        for h, v in (("|", "-"), ("<", "_")):
+                            for upscale in (False, True):
+                                cases.append(dict(kind=kind, img=img, size=list(size), h=h, v=v, upscale=upscale,
+                                                  alpha="", cell_ratio=ratio))
         if style == "kitty" or kind == "iterm2-lines@konsole":
             # images that carry a disguise (kitty; iterm2 on konsole): every disguise state
             for dis in ((1, 0), (2, 0), (0, 1), (2, 2)):
